@@ -388,7 +388,20 @@ def u_ti_clear_tail(ctx):
         widget = Rec("widget", {"wid": WID(i), "_ti_image": Rec("image", {"kitty": K(i)})})
         canv = Rec("canvas", {"widget_info": (widget, "size", "focus")})
         return (canv, "row", "col", "trim")
-    eng.methods[("viewset", "__sub__")] = lambda e, s, recv, a, k: [(SeqV(D, elem, "set-difference"), s)] if recv is old and a[0] is new else _unsup("set difference of other sets")
+    def other_elem(i, s_):
+        i = to_z3(i)
+        K2, W2 = z3.Function("other_is_kitty", z3.IntSort(), z3.BoolSort()), z3.Function("other_widget", z3.IntSort(), z3.IntSort())
+        widget = Rec("widget", {"wid": W2(i), "_ti_image": Rec("image", {"kitty": K2(i)})})
+        return (Rec("canvas", {"widget_info": (widget, "size", "focus")}), "row", "col", "trim")
+
+    def vs_sub(e, s, recv, a, k):
+        if recv is old and a[0] is new:
+            return [(SeqV(D, elem, "set-difference"), s)]
+        n2 = e.sym_int("n_other_difference")          # some other set: unrelated to what disappeared
+        s.pc.append(n2 >= 0)
+        return [(SeqV(n2, other_elem, "set-difference"), s)]
+    eng.methods[("viewset", "__sub__")] = vs_sub
+    eng.methods[("viewset", "__or__")] = lambda e, s, recv, a, k: [(e.fork(s).new("viewset", {"which": "union"}), s)] if False else [_new_vs(e, s)]
     eng.genv["KittyImage"] = ClassV("KittyImage")
     eng.genv["isinstance"] = Fn(lambda e, s, a, k: [(a[0].f["kitty"], s)] if isinstance(a[0], Rec) and a[0].name == "image" else _unsup("isinstance"))
     eng.genv["frozenset"] = Fn(lambda e, s, a, k: [(Rec("frozenset_of", {"src": a[0]}), s)])
@@ -470,3 +483,8 @@ def u_ti_clear_tail(ctx):
 
 def _unsup(msg):
     raise Unsupported(msg)
+
+
+def _new_vs(e, s):
+    s = e.fork(s)
+    return s.new("viewset", {"which": "union"}), s
